@@ -23,7 +23,8 @@ EXPLANATION = (
     "default_start, complete identity scaling / unit initialisation - so the k-th iterate does not depend on what the same "
     "solver object did before."
     " (R10) dual membership predicate for (dz,z), primal for (ds,s) in every nonsymmetric cone (C15.R4 re-run); (R11) backtrack_search returns zero or the alpha it has just tested (C15.R11 re-run)."
-    " (R12) nonnegative-cone ratio test: component i limits the step iff its direction is < 0 exactly (no tolerance), by -z_i/dz_i (C15.R12 re-run).")
+    " (R12) nonnegative-cone ratio test: component i limits the step iff its direction is < 0 exactly (no tolerance), by -z_i/dz_i (C15.R12 re-run)."
+    " (R13) the previous iterate is restored only under status == InsufficientProgress itself, never on a budget termination.")
 ASSUMPTIONS = [
     'rustc MIR construction and trait resolution are correct',
     '0 <= linesearch_backtrack_step <= 1 and 0 < max_step_fraction <= 1 (settings are not validated by the crate)',
@@ -143,6 +144,41 @@ def add_step(rep, F, tag):
     R.guard(body)
 
 
+def rollback_only_on_stall(rep, F, tag):
+    """A run limited to max_iter = k returns the k-th iterate: the only place that replaces the current iterate by the previous one
+    (reset_to_prev_iterate) may run only when the termination test has reported InsufficientProgress - not on MaxIterations / MaxTime,
+    which would make the budgeted run return iterate k-1."""
+    R = rep.rule('C07.R13', 'the previous iterate is restored only under status == InsufficientProgress (never on a budget termination)')
+
+    def body():
+        adt = F.adt('SolverStatus')
+        idx = [i for i, v in enumerate(adt['variants']) if v['n'] == 'InsufficientProgress'][0]
+        n = 0
+        for f in F.fns:
+            if f.from_expansion or not calls_named(f, 'reset_to_prev_iterate'):
+                continue
+            for val, ret, ev, tr in Walker(f).leaves():
+                if not any(e[0] == 'call' and e[1] == 'reset_to_prev_iterate' for e in ev):
+                    continue
+                n += 1
+                ok = False
+                for k, v in val.items():
+                    if 'get_status(' not in k and '.status' not in k:
+                        continue
+                    if k.startswith('ne(') and 'SolverStatus::InsufficientProgress' in k and v == 0:
+                        ok = True
+                    if k.startswith('eq(') and 'SolverStatus::InsufficientProgress' in k and v == 1:
+                        ok = True
+                    if k.startswith('discr(') and v == idx:
+                        ok = True
+                R.check(ok, 'rollback-guard|%s%s' % (short(f.key), tag),
+                        '%s restores the previous iterate under %s: the rollback must be guarded by status == InsufficientProgress itself (a wider test such as is_errored() '
+                        'also fires on MaxIterations / MaxTime, so a run with max_iter = k would return iterate k-1)' % (f.key, {k[:70]: v for k, v in val.items()}), f.loc())
+        R.check(n >= 1, 'sites' + tag, 'no path calling reset_to_prev_iterate found')
+
+    R.guard(body)
+
+
 def run(ctx, rep, tier):
     for cfg in CONFIGS:
         F = ctx.facts(cfg)
@@ -160,6 +196,7 @@ def run(ctx, rep, tier):
         steplen.backtrack_pairing(rep, F, tag, 'C07.R10')
         steplen.backtrack_validated(rep, F, tag, 'C07.R11')
         steplen.nn_ratio_test(rep, F, tag, 'C07.R12')
+        rollback_only_on_stall(rep, F, tag)
     # a run limited to max_iter = k is a prefix of a longer run also on a re-used solver object: every solve starts from scratch
     from . import c05, c04
     for cfg in CONFIGS:
